@@ -49,8 +49,11 @@ package scanner
 //@   modifies token.Position, lex.positionPool.block, lex.positionPool.off, lex.positionPool.issued, unissued(lex.positionPool)
 //@   props C04, C01
 
+// The text of a free-floating token is taken from data[ps:pe] and its position from the scanner
+// window ts..te: C04 ("holds exactly the source bytes found at its recorded offsets") makes their
+// agreement a precondition, discharged at every call site inside Lex.
 //@ func (*Lexer).addFreeFloatingToken
-//@   requires t != nil && lexwf(lex) && 0 <= ps && ps <= pe && pe <= len(lex.data)
+//@   requires t != nil && lexwf(lex) && 0 <= ps && ps <= pe && pe <= len(lex.data) && ps == lex.ts && pe == lex.te
 //@   ensures len(t.FreeFloating) == old(len(t.FreeFloating)) + 1
 //@   ensures forall i :: (0 <= i && i < old(len(t.FreeFloating))) ==> t.FreeFloating[i] == old(t.FreeFloating[i])
 //@   ensures t.FreeFloating[len(t.FreeFloating) - 1] != nil && !old(lex.tokenPool.issued)[t.FreeFloating[len(t.FreeFloating) - 1]]
@@ -171,6 +174,10 @@ package scanner
 //@   ensures result != nil
 //@   ensures lexinv(lex)
 //@   props C01, C04
+// C04: the returned token holds the bytes of the scanner window, and a token that is not the end
+// token carries the window as its position.
+//@ scan post arr(result.Value) == arr(lex.data) && off(result.Value) == off(lex.data) + lex.ts && len(result.Value) == lex.te - lex.ts
+//@ scan post result.ID != 0 ==> (result.Position != nil && result.Position.StartPos == lex.ts && result.Position.EndPos == lex.te)
 
 // ---------------------------------------------------------------------------------------------
 // E-SCAN: the generated machine Lex is cut at its labels; the invariant of every cut is the
@@ -191,6 +198,8 @@ package scanner
 //@ scan inv lex.pe == len(lex.data)
 //@ scan inv eof == lex.pe
 //@ scan inv tkn != nil
+//@ scan inv tok == 0
+//@ scan inv entrystate(lex.cs) || lex.cs == lexer_error
 //@ scan inv lex.phpVersion != nil
 //@ scan inv sorted(lex.newLines.data)
 //@ scan inv lex.tokenPool != nil && len(lex.tokenPool.block) >= 1 && poolwf(lex.tokenPool)
@@ -220,7 +229,12 @@ package scanner
 //@ scan inv lex.te <= lex.p + 1
 //@ scan inv lex.te <= lex.p
 //@ scan inv lex.te == lex.p + 1
-//@ scan inv 0 <= lblStart && lblStart <= lblEnd && lblEnd <= lex.p + 1
-//@ scan inv 0 <= lblStart && lblStart <= lex.p + 1
+//@ scan inv 1 <= lblStart
+//@ scan inv lex.ts + 3 <= lblStart
+//@ scan inv lblStart <= lex.p
+//@ scan inv lblStart < lex.p
+//@ scan inv lblStart < lblEnd
+//@ scan inv lblEnd <= lex.p
+//@ scan inv lblEnd <= lex.p + 1
 //@ scan inv-at _again, _resume : entrystate(lex.cs)
 //@ scan inv-at _again, _resume : lex.cs == $E ==> 1 <= lex.top
